@@ -2,6 +2,7 @@
 package c16
 
 import (
+	"os"
 	"context"
 	"database/sql"
 	"encoding/json"
@@ -426,6 +427,11 @@ func runCase(c Case) *pt.Failure {
 						return pt.Failf("C16/harness/setup", "%v: %s", err, q)
 					}
 				}
+				for _, q := range tb.BigInserts(names[i]) {
+					if _, err := env.Bare.Exec(q); err != nil {
+						return pt.Failf("C16/harness/setup", "bulk rows: %v", err)
+					}
+				}
 			}
 			return nil
 		}
@@ -722,7 +728,32 @@ func prop(driver string, contexts []string) func(rt *rapid.T) {
 }
 
 func TestPropATPlain(t *testing.T) { ctx.Check(t, prop("at", []string{"plain"})) }
+var bigDone bool
+
+// bigCase: a statement over more rows than one IN list of the image queries holds (1000), once per process;
+// size and statement kind follow the shard number.
+func bigCase() Case {
+	sh := 0
+	if v := os.Getenv("VERIF_SHARD"); v != "" {
+		fmt.Sscanf(v, "%d", &sh)
+	}
+	n := []int{1001, 2000, 1500, 1000, 999, 2001, 2500, 3000}[sh%8]
+	kind := []string{"update", "delete", "insert"}[(sh/2)%3]
+	tb := gen.TableSpec{KeyShape: "int", Cols: []gen.ColSpec{{Name: "id", Type: "INT", Base: "INT"}, {Name: "c0", Type: "INT", Base: "INT", Nullable: true}, {Name: "c1", Type: "VARCHAR(32)", Base: "VARCHAR", Nullable: true}}, PK: []string{"id"},
+		Rows: [][]gen.Lit{{{Kind: "int", I: 1}, {Kind: "int", I: 5}, {Kind: "str", S: "a"}}}, BigRows: n}
+	tables := []gen.TableSpec{tb}
+	st := gen.BigStmt(nil, tables, 0, kind, n)
+	return Case{Driver: "at", Context: "global", DSN: 0, Via: "db", Tables: tables, Ops: []Op{{Kind: "exec", SQL: st.SQL, Note: st.Kind}}}
+}
+
 func TestPropATGlobal(t *testing.T) {
+	if !bigDone {
+		bigDone = true
+		c := bigCase()
+		fl := runCase(c)
+		ctx.Rec.Case("at-global", true, "large-statement", c, "driver:at", "context:global", "large-statement")
+		ctx.Judge(t, "at", fl, c)
+	}
 	ctx.Check(t, prop("at", []string{"global", "global-then-plain"}))
 }
 func TestPropXAPlain(t *testing.T) { ctx.Check(t, prop("xa", []string{"plain"})) }
